@@ -18,7 +18,9 @@ def run(tier, seed):
     runs = [("shapes", 1, "values", ["entity", "association"]), ("shapes", 1, "attrs", ["agent", "derivation", "entity"]),
             ("shapes", 1, "min", _ser.ALL_KINDS), ("shapes", 3, "min", ["membership"]),
             # records sharing an identifier (array form) that differ in their optional arguments
-            ("shapes", 2, "min", ["generation", "activity"])]
+            ("shapes", 2, "min", ["generation", "activity"]),
+            # names of several namespaces at document and bundle level (prefix re-binding in the bundle)
+            ("ns", 2, "min", ["entity"])]
     behaviours = []
     stA = stT = 0
     wall = 0.0
@@ -58,7 +60,7 @@ def run(tier, seed):
     ev = {"level": "model_checking",
           "coverage": {"states": stA, "transitions": stT, "traces_validated_against_impl": R["traces"],
                        "steps_validated": R["steps"], "exhaustive": False,
-                       "bounds": {"flag_sets": 29, "formats": ["json", "xml"],
+                       "bounds": {"flag_sets": 31, "formats": ["json", "xml"],
                                   "document_runs": [dict(mode=m, depth=d, extras=e, kinds=len(k)) for (m, d, e, k) in runs],
                                   "corpus_calls": len(ks), "corpus_files": {"json": 398, "xml": 45},
                                   "mutations": ["reorder", "wrap", "recarr", "rename", "tobundle"]},
